@@ -223,7 +223,7 @@ def rule_cases(cell):
 # the expression is BUILT, so the input side of these cases is given as a Gallina term over the serialised
 # operand (which contains no derivative) instead of being serialised from the constructed object
 
-def ctor_cases(cell, rng):
+def ctor_cases(cell, rng, ncomp=6):
     g = C03_gen.GDIM[cell]
     G = C03_gen.Gen(random.Random(0), cell)
     f = G.f[0]
@@ -243,8 +243,8 @@ def ctor_cases(cell, rng):
             ctx = ufl2coq.Ctx()
             kind, tid, _, _ = ctx.term(G.q0)
             comps = list(itertools.product(*[range(d) for d in res.ufl_shape]))
-            if len(comps) > 6:
-                comps = rng.sample(comps, 6)
+            if len(comps) > ncomp:
+                comps = rng.sample(comps, ncomp)
             cs = coqgen.Case(name, out=res, spec="DEN s rho (" + spec.format(op=name + "_op") + ") {c}", named={"op": op},
                              hyps=[f"forall s c j, Dx j (env s {kind} {tid} c) = z0"], ctx=ctx, comps=comps,
                              tactic="c03_close", note={"family": "constructor", "operator": dn, "operand": str(op),
@@ -498,7 +498,7 @@ def main(run):
 
     for cell in cells:
         for nm, e, gen, err in rule_cases(cell):
-            add_rule(nm, e, gen, err, cell, 6)
+            add_rule(nm, e, gen, err, cell, 4 if quick else 6)
     if quick:
         # on the other cells: every rule is built (construction errors are reported), the geometry / constant
         # rules (cell dependent) and every 10th other rule get obligations
@@ -508,7 +508,7 @@ def main(run):
                 if err is not None or k % 10 == 0 or nm.rsplit("_", 1)[0] in GEOMETRY_RULES | OPERATOR_RULES:
                     add_rule(nm, e, gen, err, cell, 4)
     for cell in ("interval", "triangle", "tetrahedron"):
-        for name, cs, err in ctor_cases(cell, rng0):
+        for name, cs, err in ctor_cases(cell, rng0, 3 if quick else 6):
             if err is not None:
                 run.violation({"broken": "a spatial derivative of a valid operand raised", "case": name, "detail": err,
                                "reproduce": "ctor_cases(%r) in /verif/py/props/C03.py" % cell}, True)
@@ -533,7 +533,7 @@ def main(run):
         # the witness no longer fails (the defect was repaired): it becomes an ordinary obligation
         add_rule(f"known_{kid.replace('-', '_')}", e, gen, None, "tetrahedron", 6)
     run.extra["open_known"] = open_known
-    rnd = random_cases(run, 36 if quick else 180)
+    rnd = random_cases(run, 30 if quick else 180)
     cases += rnd
     for c in cases:
         run.count_case((c.name, str(c.inp)))
@@ -550,7 +550,9 @@ def main(run):
     def oracle(case):
         if case.inp is None:
             return ctor_mismatch(case, 2, run.seed)
-        return pyden.find_mismatch(case.out, case.inp, trials=2, seed=run.seed, nv=3, order=4)
+        return (pyden.find_mismatch(case.out, case.inp, trials=2, seed=run.seed, nv=3, order=4)
+                or pyden.find_mismatch(case.out, case.inp, trials=2, seed=run.seed + 1, nv=3, order=4,
+                                       env_factory=lambda sd: pyden.Env(nv=3, order=4, seed=sd, positive=True)))
     witness = {}
     for c in cases:
         try:
@@ -601,6 +603,9 @@ def main(run):
             w = ctor_mismatch(case, 10 if quick else 60, run.seed)
         elif case.tactic == "c03_close":
             w = pyden.find_mismatch(case.out, case.inp, trials=30 if quick else 200, seed=run.seed, nv=3, order=4)
+            if not w:      # fields with positive values (powers / logarithms / square roots of the operands)
+                w = pyden.find_mismatch(case.out, case.inp, trials=30 if quick else 200, seed=run.seed + 1, nv=3, order=4,
+                                        env_factory=lambda sd: pyden.Env(nv=3, order=4, seed=sd, positive=True))
         rep = {"broken_obligation": lemma, "case": case.name, "note": case.note, "coq_message": msg,
                "input_expr": str(case.inp) if case.inp is not None else f"{case.build}({case.op})",
                "input_repr": repr(case.inp)[:4000] if case.inp is not None else repr(case.op)[:4000],
